@@ -79,7 +79,7 @@ RULE = ("random sequences of 1..8 write operations on the three list fields and 
         "self references included; about half of the sequences stay outside the four triggers; non-trivial = at "
         "least two operations and a non-empty expected field; distinct by case text; plus n/3 two-owner sequences "
         "(0..3 writes on a, b constructed with a's live container, in 60% 1..4 further writes through either field; "
-        "1 in 9 on a field whose super-property field is declared later); plus n/3 sequences (<= 6) over schema V, "
+        "on any of the six fields); plus n/3 sequences (<= 6) over schema V, "
         "5..7 objects sharing 2..3 values of the compared key")
 
 L_SEXP_CACHE: Dict[str, dict] = {}
@@ -384,15 +384,15 @@ def _line2(d: dict, n_obj: int, f: int, a: int, b: int, init, ops) -> str:
 def _two_owner(rng, d: dict, i: int) -> Case:
     """`b` is created with (its field first assigned) the live container of `a`; writes before and after on both"""
     n_obj = rng.randint(4, 7)
-    # fields 0 and 3 have a super-property field declared later on the same class: the constructor raises
-    # (F-C16-6); they are exercised in a small share of the cases only
-    f = rng.choice([0, 3]) if i % 9 == 0 else rng.choice([1, 2, 4, 5])
+    # every field, also those (0, 3) whose super-property field is declared later on the same class: the constructor
+    # used to raise there (F-C16-6, repaired)
+    f = rng.randrange(6)
     is_set = d["kinds"][f] == "set"
     a, b = n_obj - 2, n_obj - 1
     init = [rng.randrange(n_obj - 1) for _ in range(rng.randint(0, 3))]
     _, pre = _sequence(rng, n_obj - 1, is_set, False, 3, init=list(init), minlen=0, in_two_owner=True)
     ops = [("A", o) for o in pre] + [("adopt",)]
-    if i % 5 >= 2:  # writes after the adoption (inside the trigger of F-C16-5)
+    if i % 5 >= 2:  # writes after the adoption (every owner has a container of its own: F-C16-5 is repaired)
         _, post = _sequence(rng, n_obj, is_set, False, 4, no_setitem=True, init=[], in_two_owner=True)
         ops += [(rng.choice("AB"), o) for o in post]
     tags = ("two-owners", "set-field" if is_set else "list-field",
